@@ -195,7 +195,7 @@ Ltac step_inv H :=
   try (inversion H; subst; clear H).
 
 Ltac proj_simp :=
-  cbn [tgts bals svcs snames inst routed picked pend cmds ctimeout
+  cbn [tgts bals svcs snames inst routed picked pend cmds ctimeout owe set_owe
        set_tgts set_bals set_svcs set_snames set_inst set_routed set_picked set_pend set_cmds set_ctimeout
        put_t put_b
        t_lb t_st t_pok t_presumed t_by t_sig t_waiter t_probing t_infl
